@@ -97,6 +97,20 @@ def has_compaction(beh):
     return any(c["cmd"] == "compact" for c in beh)
 
 
+def many_segments_before_round(beh, n):
+    """some compaction round starts with at least n L0 segments (several full batches of one type)"""
+    prev = 0
+    for c in beh:
+        if c["cmd"] == "compact" and prev >= n:
+            return True
+        per_type = Counter()
+        for (s, t, rows) in c["obs"]["dirrows"]:
+            if s < 10000 and rows:
+                per_type[t] += 1
+        prev = max(per_type.values()) if per_type else 0
+    return False
+
+
 def run(tier):
     chk = core.Check(PROP, "model_checking", tier)
     bindir = core.build_harness(("vdrive",))
@@ -107,11 +121,16 @@ def run(tier):
     gen = {"flush_crash": [], "compact_crash": storage.ALL_COMPACT_CRASH, "quiescent_crash": False,
            "clean_restarts": True, "max_compact": 4, "max_flush": 2, "max_crash": 2}
     plans = [
-        {"name": "c05-cap2k2", "cap": 2, "k": 2, "gen_len": 10, "n_sim": 500, "n_rep": 45 if q else 400, "gen": gen, "filter": has_compaction},
-        {"name": "c05-cap2k3", "cap": 2, "k": 3, "gen_len": 12, "n_sim": 500, "n_rep": 35 if q else 300, "gen": gen, "filter": has_compaction},
+        {"name": "c05-cap2k2", "cap": 2, "k": 2, "gen_len": 10, "n_sim": 500, "n_rep": 30 if q else 400, "gen": gen, "filter": has_compaction},
+        {"name": "c05-cap2k3", "cap": 2, "k": 3, "gen_len": 12, "n_sim": 500, "n_rep": 20 if q else 300, "gen": gen, "filter": has_compaction},
     ]
+    # capacity 1: every STORE is a segment, so one round sees several full batches of one type
+    gen1 = dict(gen, max_flush=0, max_crash=1)
+    plans.append({"name": "c05-cap1k2", "cap": 1, "k": 2, "gen_len": 9, "n_sim": 300 if q else 1500, "n_rep": 12 if q else 200, "gen": gen1,
+                  "filter": lambda b: has_compaction(b) and many_segments_before_round(b, 4)})
+    plans.append({"name": "c05-cap1k3", "cap": 1, "k": 3, "gen_len": 11, "n_sim": 300 if q else 1500, "n_rep": 8 if q else 150, "gen": gen1,
+                  "filter": lambda b: has_compaction(b) and many_segments_before_round(b, 6)})
     if not q:
-        plans.append({"name": "c05-cap1k2", "cap": 1, "k": 2, "gen_len": 9, "n_sim": 400, "n_rep": 200, "gen": gen, "filter": has_compaction})
         plans.append({"name": "c05-cap3k4", "cap": 3, "k": 4, "gen_len": 16, "n_sim": 400, "n_rep": 150, "gen": gen, "filter": has_compaction})
     stats = storage.campaign(chk, "C05", plans, TYPES, CTXS, bindir, judge, rnd)
     chk.cov["evaluations"] = stats["rounds"]
